@@ -60,23 +60,24 @@ Proof.
     + rewrite F in *. now destruct (c_auth k).
 Qed.
 
-Lemma read_x_subject g typ t id sub : read_x g typ t = Some (id, sub) -> C15_spec.subject_of g typ t = sub.
+Lemma read_x_subject g a typ t id sub : read_x g a typ t = Some (id, sub) -> C15_spec.subject_of g typ t = sub.
 Proof.
-  destruct typ; cbn; try discriminate.
-  - destruct t as [i s| |i sg e j s z|i]; cbn; try discriminate.
+  intro R. apply read_x_inv in R as [R|(_ & _ & _ & _ & c & -> & _)]; [|now destruct typ].
+  revert R. destruct typ; cbn; try discriminate.
+  - destruct t as [i s| |i sg e j s z|i|c0 s0]; cbn; try discriminate.
     + now intros [= _ ->].
     + destruct (i && sg && negb e); [|discriminate]. now intros [= _ ->].
-  - destruct t as [i s| |i sg e j s z|i]; cbn; try discriminate.
+  - destruct t as [i s| |i sg e j s z|i|c0 s0]; cbn; try discriminate.
     destruct i as [n|m| |]; try discriminate.
     destruct (find_rt m (rtoks g)); [|discriminate]. now intros [= _ ->].
-  - destruct t as [i s| |i sg e j s z|i]; cbn; try discriminate.
+  - destruct t as [i s| |i sg e j s z|i|c0 s0]; cbn; try discriminate.
     destruct (i && sg && negb e); [|discriminate]. now intros [= _ ->].
 Qed.
 
 Definition actor_read (g : store) (actor : option (tokstr * ttype)) : option (sid * string * ttype) :=
   match actor with
   | None => Some (NoId, "", TAbsent)
-  | Some (ta, atyp) => match read_x g atyp ta with Some (aid, asub) => Some (aid, asub, atyp) | None => None end
+  | Some (ta, atyp) => match read_x g true atyp ta with Some (aid, asub) => Some (aid, asub, atyp) | None => None end
   end.
 
 (* what the model answers when all guards of exchange passed *)
@@ -85,18 +86,19 @@ Definition success_result (g : store) (nx : nat) (k : client) (ssub asub : strin
   let sc := decided_scopes (policy g) scopes in
   let ssub := decided_subject (policy g) ssub in
   let t := TRec (c_id k) ssub asub sc aud (c_exp k) in
-  let acc n := if c_jwt k then XJwt (AT n) ssub asub else XOpaque (AT n) ssub in
+  let lf := TLife (c_exp k) true in
+  let acc n := if c_jwt k then XJwt (AT n) ssub asub lf else XOpaque (AT n) ssub in
   match effective_type (policy g) req with
   | TAccess => Some ((add_at (nx + 1) t g, nx + 1), OExch TAccess (acc (nx + 1)) NoId false sc (Some t))
   | TRefresh => Some ((add_at_rt (nx + 1) (nx + 2) t g, nx + 2), OExch TRefresh (acc (nx + 2)) (RT (nx + 1)) true sc (Some t))
-  | TId => Some ((g, nx), OExch TId (XIdTok ssub (c_id k)) NoId false sc None)
+  | TId => Some ((g, nx), OExch TId (XIdTok ssub (c_id k) lf) NoId false sc None)
   | _ => None
   end.
 
 Lemma exchange_ok_full cl r g nx c subj styp actor req scopes aud s' i x rt lv sc sto :
   exchange cl r (g, nx) c subj styp actor req scopes aud = (s', OExch i x rt lv sc sto) ->
   exists k id ssub aid asub atyp,
-    exch_auth cl r c = Some k /\ read_x g styp subj = Some (id, ssub) /\
+    exch_auth cl r c = Some k /\ read_x g false styp subj = Some (id, ssub) /\
     actor_read g actor = Some (aid, asub, atyp) /\ string_in "veto" scopes = false /\
     success_result g nx k ssub asub req scopes aud = Some (s', OExch i x rt lv sc sto).
 Proof.
@@ -105,7 +107,7 @@ Proof.
   fold (exch_auth cl r c) (exch_err cl r c). destruct (exch_auth cl r c) as [k|];
     [|destruct (exch_err_shape cl r c) as [st ->]; discriminate].
   destruct (c_exchange k) eqn:GX; cbn [negb]; [|discriminate].
-  destruct (read_x g styp subj) as [[id ssub]|] eqn:RS; [|destruct req; discriminate].
+  destruct (read_x g false styp subj) as [[id ssub]|] eqn:RS; [|destruct req; discriminate].
   fold (actor_read g actor).
   destruct (actor_read g actor) as [[[aid asub] atyp']|] eqn:EA; [|destruct req; discriminate].
   destruct (x_live g styp id) eqn:LS; cbn [negb]; [|destruct req, r; discriminate].
@@ -122,21 +124,21 @@ Lemma actor_read_subject g actor aid asub atyp : actor_read g actor = Some (aid,
   match actor with Some (ta, aty) => C15_spec.subject_of g aty ta | None => "" end = asub.
 Proof.
   unfold actor_read. destruct actor as [[ta aty]|]; [|now intros [= _ <- _]].
-  destruct (read_x g aty ta) as [[a b]|] eqn:R; [|discriminate]. intros [= _ <- _].
-  exact (read_x_subject _ _ _ _ _ R).
+  destruct (read_x g true aty ta) as [[a b]|] eqn:R; [|discriminate]. intros [= _ <- _].
+  exact (read_x_subject _ _ _ _ _ _ R).
 Qed.
 
 Lemma contained_access t n rt lv (j : bool) :
-  C15_spec.contained t TAccess (if j then XJwt (AT n) (tr_sub t) (tr_actor t) else XOpaque (AT n) (tr_sub t)) rt lv (Some t) = true.
-Proof. unfold C15_spec.contained. destruct j; now rewrite !String.eqb_refl, trec_eqb_refl. Qed.
+  C15_spec.contained t TAccess (if j then XJwt (AT n) (tr_sub t) (tr_actor t) (TLife (tr_expired t) true) else XOpaque (AT n) (tr_sub t)) rt lv (Some t) = true.
+Proof. unfold C15_spec.contained, C15_spec.life_ok. destruct j; now rewrite !String.eqb_refl, trec_eqb_refl, ?Bool.eqb_reflx. Qed.
 
 Lemma contained_refresh t n m (j : bool) :
-  C15_spec.contained t TRefresh (if j then XJwt (AT n) (tr_sub t) (tr_actor t) else XOpaque (AT n) (tr_sub t)) (RT m) true (Some t) = true.
-Proof. unfold C15_spec.contained. destruct j; now rewrite !String.eqb_refl, trec_eqb_refl. Qed.
+  C15_spec.contained t TRefresh (if j then XJwt (AT n) (tr_sub t) (tr_actor t) (TLife (tr_expired t) true) else XOpaque (AT n) (tr_sub t)) (RT m) true (Some t) = true.
+Proof. unfold C15_spec.contained, C15_spec.life_ok. destruct j; now rewrite !String.eqb_refl, trec_eqb_refl, ?Bool.eqb_reflx. Qed.
 
 Lemma contained_id t rt lv sto :
-  C15_spec.contained t TId (XIdTok (tr_sub t) (tr_client t)) rt lv sto = true.
-Proof. unfold C15_spec.contained. now rewrite !String.eqb_refl. Qed.
+  C15_spec.contained t TId (XIdTok (tr_sub t) (tr_client t) (TLife (tr_expired t) true)) rt lv sto = true.
+Proof. unfold C15_spec.contained, C15_spec.life_ok. now rewrite !String.eqb_refl, Bool.eqb_reflx. Qed.
 
 (* C15_declared_is_contained, request level *)
 Lemma declared_is_contained cl r g nx c subj styp actor req scopes aud s' i x rt lv sc sto :
@@ -146,20 +148,20 @@ Lemma declared_is_contained cl r g nx c subj styp actor req scopes aud s' i x rt
   sc = decided_scopes (policy g) scopes /\
   i = effective_type (policy g) req /\
   C15_spec.contained want i x rt lv sto = true /\
-  (forall t, sto = Some t -> t = want /\ exists n, (x = XOpaque (AT n) (tr_sub want) \/ x = XJwt (AT n) (tr_sub want) (tr_actor want)) /\
+  (forall t, sto = Some t -> t = want /\ exists n, (x = XOpaque (AT n) (tr_sub want) \/ x = XJwt (AT n) (tr_sub want) (tr_actor want) (TLife (tr_expired want) true)) /\
                                    find_tok n (toks (fst s')) = Some t) /\
   (forall m, rt = RT m -> find_rt m (rtoks (fst s')) <> None).
 Proof.
   intros W E want. apply exchange_ok_full in E as (k & id & ssub & aid & asub & atyp & A & RS & RA & V & SR).
   destruct (exch_auth_ok _ _ _ _ W A) as (_ & IDK & FK).
   assert (WT : want = TRec (c_id k) (decided_subject (policy g) ssub) asub (decided_scopes (policy g) scopes) aud (c_exp k)).
-  { subst want. unfold C15_spec.decided. rewrite (read_x_subject _ _ _ _ _ RS), (actor_read_subject _ _ _ _ _ RA).
+  { subst want. unfold C15_spec.decided. rewrite (read_x_subject _ _ _ _ _ _ RS), (actor_read_subject _ _ _ _ _ RA).
     unfold expired_of. now rewrite FK, IDK. }
   rewrite WT. clear WT want.
   unfold success_result in SR. cbv zeta in SR.
   set (t := TRec (c_id k) (decided_subject (policy g) ssub) asub (decided_scopes (policy g) scopes) aud (c_exp k)) in *.
   change (decided_subject (policy g) ssub) with (tr_sub t) in SR. change (c_id k) with (tr_client t) in SR.
-  change asub with (tr_actor t) in SR.
+  change asub with (tr_actor t) in SR. change (c_exp k) with (tr_expired t) in SR.
   destruct (effective_type (policy g) req); try discriminate; injection SR as <- <- <- <- <- <- <-;
     (split; [reflexivity|]); (split; [reflexivity|]).
   - split; [apply contained_access|]. split; [|intros m [=]].
@@ -172,23 +174,35 @@ Proof.
   - split; [apply contained_id|]. split; [intros t0 [=]|intros m [=]].
 Qed.
 
-Lemma subj_live_read g typ t : subj_live g typ t = true ->
-  exists id sub, read_x g typ t = Some (id, sub) /\ x_live g typ id = true /\ id <> NoId.
+Lemma own_live_read g typ t : own_live g typ t = true ->
+  exists id sub, read_native g typ t = Some (id, sub) /\ x_live g typ id = true /\ id <> NoId.
 Proof.
   destruct typ; cbn; try discriminate.
   - destruct (as_access t) as [n| | |] eqn:A; try discriminate. unfold g_has_live.
     destruct (find_tok n (toks g)) as [tr|] eqn:F; [|discriminate]. intro H.
     apply andb_true_iff in H as [H _]. apply negb_true_iff in H.
     assert (R : exists sub, read_at t = Some (AT n, sub)).
-    { destruct t as [i s| |i sg e j s z|i]; cbn in A; try discriminate.
+    { destruct t as [i s| |i sg e j s z|i|c0 s0]; cbn in A; try discriminate.
       - subst i. now exists s.
       - destruct i, sg, e; try discriminate. subst j. now exists s. }
     destruct R as [sub R]. exists (AT n), sub. rewrite R. cbn. rewrite F, H. repeat split; try reflexivity; try discriminate.
-  - destruct t as [i s| |i sg e j s z|i]; try discriminate. destruct i as [n|m| |]; try discriminate.
+  - destruct t as [i s| |i sg e j s z|i|c0 s0]; try discriminate. destruct i as [n|m| |]; try discriminate.
     cbn. destruct (find_rt m (rtoks g)) as [rr|] eqn:F; [|discriminate]. intros _.
     exists (RT m), (r_sub rr). cbn. rewrite F. repeat split; try reflexivity; try discriminate.
-  - destruct t as [i s| |i sg e j s z|i]; try discriminate.
+  - destruct t as [i s| |i sg e j s z|i|c0 s0]; try discriminate.
     destruct i, sg, e, j; try discriminate. intros _. exists Junk, s. repeat split; try reflexivity; try discriminate.
+Qed.
+
+Lemma subj_live_read g a typ t : subj_live a g typ t = true ->
+  exists id sub, read_x g a typ t = Some (id, sub) /\ x_live g typ id = true /\ id <> NoId.
+Proof.
+  unfold subj_live. intro H. apply orb_true_iff in H as [H|H].
+  - apply own_live_read in H as (id & sub & R & L & N). exists id, sub. unfold read_x. rewrite R. auto.
+  - unfold C08_spec.ext_live in H. destruct t as [i s| |i sg e j s z|i|c0 s0]; try discriminate.
+    assert (T : (typ = TId \/ typ = TJwt) /\ p_verifier (policy g) = true /\ ext_accepts c0 a = true).
+    { destruct typ; try discriminate; apply andb_true_iff in H as [H1 H2]; auto. }
+    destruct T as (T & V & E). exists Junk, s0. unfold read_x.
+    destruct T as [-> | ->]; cbn; rewrite V, E; repeat split; discriminate.
 Qed.
 
 Lemma promised_succeeds cl r g nx c subj styp actor req scopes aud :
@@ -208,11 +222,11 @@ Proof.
       destruct (c_auth k) eqn:AK; try congruence; rewrite PC, AK; reflexivity. }
   clear PC.
   destruct A as (k & A & GX).
-  destruct (subj_live_read _ _ _ PS) as (id & ssub & RS & LS & _).
+  destruct (subj_live_read _ _ _ _ PS) as (id & ssub & RS & LS & _).
   assert (AR : exists aid asub atyp, actor_read g actor = Some (aid, asub, atyp) /\
             ((nonempty asub || match aid with NoId => false | _ => true end) && negb (x_live g atyp aid)) = false).
   { destruct actor as [[ta atyp]|]; cbn.
-    - cbn in PA. destruct (subj_live_read _ _ _ PA) as (aid & asub & RA & LA & _).
+    - cbn in PA. destruct (subj_live_read _ _ _ _ PA) as (aid & asub & RA & LA & _).
       exists aid, asub, atyp. rewrite RA, LA. split; [reflexivity|apply andb_false_r].
     - exists NoId, "", TAbsent. split; reflexivity. }
   destruct AR as (aid & asub & atyp & RA & LA).
@@ -299,7 +313,7 @@ Proof. vm_compute. repeat split. discriminate. Qed.
 Lemma needs_live_tokens cl r s c subj styp actor req scopes aud s' i x rt lv sc sto :
   wf_clients cl = true -> op_unconfused (Exchange r c subj styp actor req scopes aud) = true ->
   exchange cl r s c subj styp actor req scopes aud = (s', OExch i x rt lv sc sto) ->
-  C15_spec.client_ok cl c = true /\ subj_live (fst s) styp subj = true /\ actor_live (fst s) actor = true.
+  C15_spec.client_ok cl c = true /\ subj_live false (fst s) styp subj = true /\ actor_live (fst s) actor = true.
 Proof.
   intros W U E. destruct (exchange_live _ _ _ _ _ _ _ _ _ _ _ _ _ _ _ _ _ U E) as [SL AL].
   destruct s as [g nx]. apply exchange_ok_full in E as (k & id & ssub & aid & asub & atyp & A & _).
@@ -308,7 +322,7 @@ Qed.
 
 Lemma unissuable_is_error cl r s c subj styp actor req scopes aud :
   op_unconfused (Exchange r c subj styp actor req scopes aud) = true ->
-  C15_spec.issuable (policy (fst s)) req && negb (string_in "veto" scopes) && subj_live (fst s) styp subj && actor_live (fst s) actor = false ->
+  C15_spec.issuable (policy (fst s)) req && negb (string_in "veto" scopes) && subj_live false (fst s) styp subj && actor_live (fst s) actor = false ->
   exists st, snd (exchange cl r s c subj styp actor req scopes aud) = OErr st true /\ C15_spec.is_error st = true.
 Proof.
   intros U N. pose proof (exchange_shape cl r s c subj styp actor req scopes aud) as SH. cbn zeta in SH.
@@ -318,4 +332,47 @@ Proof.
   destruct s as [g nx]. pose proof (exchange_ok_issuable _ _ _ _ _ _ _ _ _ _ _ _ _ _ _ _ _ _ E) as IS.
   apply exchange_ok_full in E as (k & id & ssub & aid & asub & atyp & _ & _ & _ & V & SR).
   cbn [fst] in *. rewrite SL, AL, V, IS in N. discriminate.
+Qed.
+
+(* ---------------------------------------------------------------- round 6: third-party tokens per role, lifetimes *)
+
+(* a third-party token is accepted only in the role its issuer vouches for, and only by a provider
+   whose storage verifies third-party tokens: as subject ... *)
+Lemma ext_subject_role cl r s c cls sub styp actor req scopes aud s' i x rt lv sc sto :
+  exchange cl r s c (Ext cls sub) styp actor req scopes aud = (s', OExch i x rt lv sc sto) ->
+  p_verifier (policy (fst s)) = true /\ ext_accepts cls false = true /\ (styp = TId \/ styp = TJwt).
+Proof.
+  intro E. apply exchange_ok_inv in E as (k & id & ssub & _ & RS & LS & _).
+  apply read_x_inv in RS as [RS|(_ & -> & S & V & c0 & [= <- <-] & A)].
+  - destruct styp; cbn in RS; discriminate.
+  - repeat split; auto. destruct styp; cbn in LS, S; try discriminate; auto.
+Qed.
+
+(* ... and as actor *)
+Lemma ext_actor_role cl r s c subj styp cls sub atyp req scopes aud s' i x rt lv sc sto :
+  exchange cl r s c subj styp (Some (Ext cls sub, atyp)) req scopes aud = (s', OExch i x rt lv sc sto) ->
+  p_verifier (policy (fst s)) = true /\ ext_accepts cls true = true.
+Proof.
+  intro E. apply exchange_ok_inv in E as (k & id & ssub & _ & _ & _ & _ & _ & aid & asub & RA & _).
+  apply read_x_inv in RA as [RA|(_ & _ & _ & V & c0 & [= <- <-] & A)]; [destruct atyp; cbn in RA; discriminate|auto].
+Qed.
+
+(* the verdict for one role says nothing about the other: tokens good in exactly one role exist *)
+Lemma ext_roles_independent : ext_accepts EActor true = true /\ ext_accepts EActor false = false /\
+  ext_accepts ESubj false = true /\ ext_accepts ESubj true = false.
+Proof. repeat split. Qed.
+
+(* every JWT a success response contains (access token or ID token) says about itself what the
+   decided record says: expired iff its client is registered so, lifetime as registered *)
+Lemma issued_jwt_lifetime cl r g nx c subj styp actor req scopes aud s' i x rt lv sc sto l :
+  wf_clients cl = true ->
+  exchange cl r (g, nx) c subj styp actor req scopes aud = (s', OExch i x rt lv sc sto) ->
+  (exists a b, x = XIdTok a b l) \/ (exists n a b, x = XJwt n a b l) ->
+  l = TLife (expired_of cl (cred_id c)) true.
+Proof.
+  intros W E X. apply exchange_ok_full in E as (k & id & ssub & aid & asub & atyp & A & _ & _ & _ & SR).
+  destruct (exch_auth_ok _ _ _ _ W A) as (_ & IDK & FK). unfold expired_of. rewrite FK.
+  unfold success_result in SR. cbv zeta in SR.
+  destruct (effective_type (policy g) req); try discriminate; injection SR as _ _ <- _ _ _ _;
+    destruct X as [(a & b & X)|(n & a & b & X)]; destruct (c_jwt k); try discriminate; now injection X as _ _ <-.
 Qed.
